@@ -13,6 +13,7 @@ from stone.backends.python_helpers import (
     generate_imports_for_referenced_namespaces,
     generate_module_header,
     validators_import_with_type_ignore,
+    TYPE_IGNORE_COMMENT,
 )
 from stone.backends.python_type_mapping import (
     map_stone_type_to_python_type,
@@ -36,6 +37,7 @@ from stone.ir import (
     Timestamp,
     Union,
     unwrap_aliases,
+    UserDefined,
 )
 from stone.ir.data_types import String
 from stone.typing_hacks import cast
@@ -432,7 +434,23 @@ class PythonTypeStubsBackend(CodeBackend):
             self.import_tracker._register_typing_import("Text")
             return "Text"
 
+        def upon_encountering_user_defined(
+            ns, data_type, override_dict
+        ):  # pylint: disable=unused-argument
+            # type: (...) -> None
+            # A type reached through an alias of another namespace may live
+            # in a namespace that this one does not import itself.
+            assert self.args is not None
+            type_ns = data_type.namespace
+            if type_ns.name != ns.name and type_ns not in \
+                    ns.get_imported_namespaces(consider_annotation_types=True):
+                self.import_tracker._register_adhoc_import(
+                    'from {} import {}{}'.format(
+                        self.args.package, fmt_namespace(type_ns.name),
+                        TYPE_IGNORE_COMMENT))
+
         callback_dict = {
+            UserDefined: upon_encountering_user_defined,
             List: upon_encountering_list,
             Map: upon_encountering_map,
             Nullable: upon_encountering_nullable,
@@ -477,7 +495,7 @@ class PythonTypeStubsBackend(CodeBackend):
 
             if self.import_tracker.cur_namespace_adhoc_imports:
                 self.emit("")
-                for to_import in self.import_tracker.cur_namespace_adhoc_imports:
+                for to_import in sorted(self.import_tracker.cur_namespace_adhoc_imports):
                     self.emit(to_import)
 
         self.add_named_placeholder('imports_needed_for_typing', output_buffer.getvalue())
